@@ -1,6 +1,7 @@
 //! rdbmon — runtime monitors for raindb. One process runs one shard of one property's cases and
 //! writes one JSON line per case; the `check` driver fans shards out and merges.
 
+mod crash;
 mod dbutil;
 mod director;
 mod gen;
@@ -62,6 +63,7 @@ fn main() {
     };
     for idx in cases {
         watch::take_panics();
+        dbutil::new_case();
         watch::begin_case(idx);
         watch::emit(&json!({"t": "start", "case": idx}));
         let t0 = Instant::now();
